@@ -47,6 +47,14 @@ def tus(tier, seed):
              (200, 'i8', 300, 'i8'), (300, 'u8', 200, 'u8'), (200, 'i64', 300, 'i64'), (320, 'u64', 200, 'u64'),
              (200, 'i32', 300, 'u32'), (300, 'u32', 200, 'i32'), (200, 'u32', 300, 'i32'), (300, 'i32', 200, 'u32'),
              (100, 'i32', 300, 'u32'), (300, 'i32', 100, 'u32'),
+             # different signedness with a multi-word representation (by value since the repair of
+             # C03.wide_mixed_signedness_converts_to_unsigned): a negative operand against a wider unsigned type in
+             # both operand orders, 8/16/64-bit limbs, single-word (built-in) against multi-word in both orders and
+             # both signedness assignments, built-in representations wider/narrower than a limb
+             (300, 'u32', 100, 'i32'), (100, 'u32', 300, 'i32'), (20, 'i32', 200, 'u32'), (200, 'u32', 20, 'i32'),
+             (200, 'i8', 300, 'u8'), (300, 'u8', 200, 'i8'), (200, 'i64', 320, 'u64'), (320, 'u64', 200, 'i64'),
+             (40, 'i16', 200, 'u16'), (200, 'u16', 40, 'i16'), (100, 'i8', 200, 'u8'), (200, 'u8', 100, 'i8'),
+             (200, 'u64', 300, 'i64'), (7, 'u8', 150, 'i8'),
              # single-word representations of different signedness (the built-in rule applies to the representations)
              (32, 'u32', 32, 'i32'), (32, 'i32', 32, 'u32'), (16, 'u8', 16, 'i8'), (31, 'i64', 32, 'u32'),
              (64, 'u32', 64, 'i32'), (64, 'i32', 64, 'u32'), (40, 'i16', 100, 'u16')]
@@ -56,6 +64,22 @@ def tus(tier, seed):
         n = rnd.choice(['i32', 'u32', 'i8', 'u8', 'i64', 'u64', 'i16'])
         a, b = rnd.randint(129, 700), rnd.randint(129, 700)
         pairs.append((a, n, b, n))
+    # seeded pairs of different signedness: multi-word vs multi-word of different storage widths, and
+    # single-word vs multi-word, the signed type on a random side
+    def swidth(d, t):
+        bits = int(t[1:])
+        return -(-(d + (1 if t[0] == 'i' else 0)) // bits) * bits
+    for _ in range(2 if tier == 'quick' else 6):
+        bits = rnd.choice(['8', '16', '32', '64'])
+        sg, un = 'i' + bits, 'u' + bits
+        while True:
+            a, b = rnd.randint(129, 600), rnd.randint(129, 600)
+            if swidth(a, sg) != swidth(b, un):
+                break
+        pairs.append((a, sg, b, un) if rnd.random() < 0.5 else (b, un, a, sg))
+        c, d = rnd.randint(1, 127), rnd.randint(129, 600)
+        nsg, nun = rnd.choice([('i' + bits, 'u' + bits), ('u' + bits, 'i' + bits)])
+        pairs.append((c, nsg, d, nun) if rnd.random() < 0.5 else (d, nun, c, nsg))
     per = 3
     for i in range(0, len(pairs), per):
         body = '#include "%s"\nint main(){ install(); Rng rng(seed_from_env() + %d);\n' % (hdr, 1300 + i)
@@ -66,4 +90,4 @@ def tus(tier, seed):
     return res
 
 
-RULE = C01.RULE + "; wide pairs: boundary lattice 2^k+5, 2^k-1, -2^k+5 for k next to the digit counts and storage widths of BOTH operand types (values that differ only above the narrower width), small and negative values, random magnitudes; elastic pairs: all values for digits <= 6, boundary lattice of both declared ranges otherwise (so -1 versus 2^D-1 is always present)"
+RULE = C01.RULE + "; wide pairs: boundary lattice 2^k+5, 2^k-1, -2^k+5 for k next to the digit counts and storage widths of BOTH operand types (values that differ only above the narrower width), the all-ones value of an unsigned storage and -(2^(W-1)-1) of a signed one (the patterns a negative operand would turn into), small and negative values, random magnitudes; pairs of different signedness (negative vs wider unsigned in both operand orders, built-in vs multi-word storage in both orders) in every run; elastic pairs: all values for digits <= 6, boundary lattice of both declared ranges otherwise (so -1 versus 2^D-1 is always present)"
